@@ -8,9 +8,8 @@ import re
 
 import vlib
 
-# F-C09-23 (open): a proposal in APPLYING not woken on synchronisation behind its SERIALIZABLE transaction (family sync_wakeup);
-# the model search may meet it and nothing else
-EXPECTED_FAMILIES = {"sync_wakeup"}
+# no lost-wake-up family is open: the model search may not meet any idle state that is not a fixed point
+EXPECTED_FAMILIES = set()
 
 
 def _excuse(ctx, signature, detail, replay):
